@@ -89,7 +89,7 @@ def main() -> int:
         part = obs[off : off + chunk]
         pp = ck.work / "obs_part.json"
         core.write_json(pp, part)
-        res = ck.tlc("LexTrace", what="V: emitted literals decode to the originals", env={"VERIF_OBS": str(pp)}, cont=True, workers=4, jvm=JVM, timeout=900)
+        res = ck.tlc("LexTrace", what="V: emitted literals decode to the originals", env={"VERIF_OBS": str(pp)}, cont=True, workers=4, jvm=JVM, timeout=1700)
         for line in res.printed:
             m = re.search(r"counts\", (\d+), (\d+), (\d+)", line)
             if m:
